@@ -8,5 +8,5 @@ def knobs(r, i):
 
 def run(v, tier, seed, replay):
     seqcheck.run(v, tier, seed, replay, "C10", ["C10"], tree_oracles=["no_panic", "contexts", "tree", "attachments"], knobs=knobs,
-                 n_quick=(700, 150), n_thorough=(80000, 10000),
+                 n_quick=(2100, 450), n_thorough=(80000, 10000),
                  nontrivial=lambda lines, tr: sum(1 for l in lines if l.endswith("ctxLocal")) >= 2)
